@@ -254,6 +254,13 @@ class Gen:
         k = rng.choice(kinds)
         if k in ("SEQUENCE OF", "SET OF"):
             t = Type(k, elem=self.member_type(depth))
+            if t.elem.kind in ("SEQUENCE", "SET", "CHOICE", "SEQUENCE OF", "SET OF", "ENUMERATED"):
+                # asn1c names every anonymous collection element "Member": a second one in the module is a
+                # (documented) C name clash, so only the first stays inline, later ones become named types
+                if getattr(self.mod, "_anon_member_used", False):
+                    t.elem = Type("REF", ref=self._hoist(t.elem))
+                else:
+                    self.mod._anon_member_used = True
             if t.elem.kind in ("SEQUENCE OF", "SET OF") and t.elem.size_c is not None and not p.get("nested_of_size"):
                 t.elem.size_c = None    # KF-C10: "X OF SET (SIZE(..)) OF Y" trips an assertion in the parser
             if p["constraints"] and rng.random() < 0.4:
